@@ -79,6 +79,24 @@ func c13Child(run *evid.Run, batch, nb int, j *Journal) {
 	}
 }
 
+// guardedScene builds a scene; sequential set-up operations that never return (every library goroutine in a
+// lock wait) are a deadlock, too.
+func guardedScene(run *evid.Run, label string, mk func() *scene) *scene {
+	var s *scene
+	ok, dead, dump := guardCall(func() { s = mk() }, 60*time.Second)
+	if ok {
+		return s
+	}
+	if dead {
+		run.Violate("C13/deadlock", det("regime", "sequential set-up"), map[string]any{"scenario": label, "blocked_goroutines": dump},
+			"a single goroutine using the log sequentially (appends and merges while building the scenario) blocks forever: %s", label)
+	} else {
+		run.Inconclusive("scenario set-up did not finish: " + label)
+	}
+	run.Eval(1)
+	return nil
+}
+
 func runWorkers(n int, fn func(g int)) <-chan struct{} {
 	done := make(chan struct{})
 	var wg sync.WaitGroup
@@ -113,9 +131,12 @@ func c13Stress(run *evid.Run, i int, j *Journal) {
 	G := []int{2, 4, 8, 16}[i%4]
 	regime := []string{"free", "noise"}[(i/4)%2]
 	total := 16 + rng.Intn(25)
-	s := newScene(run.Seed, i, 2+rng.Intn(3), rng)
 	label := fmt.Sprintf("stress #%d G=%d regime=%s ops=%d", i, G, regime, total)
 	j.Log(map[string]any{"scenario": label})
+	s := guardedScene(run, label, func() *scene { return newScene(run.Seed, i, 2+rng.Intn(3), rng) })
+	if s == nil {
+		return
+	}
 	p := newPlan(uint64(run.Seed)*7919+uint64(i), regime == "noise", map[*ipfslog.IPFSLog]string{s.L: "L"})
 	activePlan.Store(p)
 	// op lists per goroutine, biased: some goroutines mutate, some read
@@ -193,7 +214,10 @@ func head(a []string, n int) []string {
 // c13Preempt: worker A runs k1 and is parked at point; worker B runs k2 meanwhile.
 func c13Preempt(run *evid.Run, sw int, k1, point, k2 string, j *Journal) {
 	rng := rand.New(rand.NewSource(run.Seed*2718281 + int64(sw)*1000 + int64(len(k1)*131+len(point)*17+len(k2))))
-	s := newScene(run.Seed, 900000+sw, 2, rng)
+	s := guardedScene(run, fmt.Sprintf("preempt sweep=%d set-up", sw), func() *scene { return newScene(run.Seed, 900000+sw, 2, rng) })
+	if s == nil {
+		return
+	}
 	// make sure reads have something to look at and "get" knows a hash
 	s.do(run, 0, "append", rng, false)
 	s.do(run, 0, "values", rng, false)
@@ -261,8 +285,11 @@ func c13Preempt(run *evid.Run, sw int, k1, point, k2 string, j *Journal) {
 // c13Bounded: size-bounded merges discard entries, so only race and deadlock oracles apply.
 func c13Bounded(run *evid.Run, i int, j *Journal) {
 	rng := rand.New(rand.NewSource(run.Seed*3141592 + int64(i)))
-	s := newScene(run.Seed, 500000+i, 3, rng)
 	label := fmt.Sprintf("bounded-merge #%d", i)
+	s := guardedScene(run, label, func() *scene { return newScene(run.Seed, 500000+i, 3, rng) })
+	if s == nil {
+		return
+	}
 	j.Log(map[string]any{"scenario": label})
 	p := newPlan(uint64(run.Seed)+uint64(i), i%2 == 0, map[*ipfslog.IPFSLog]string{s.L: "L"})
 	activePlan.Store(p)
